@@ -3,6 +3,11 @@
 C04: TLC (WireGen.tla) enumerates boundary values per (message, version) from spec/wire/schemas/*.json and computes the
 canonical Kafka frame with Wire.tla; driver A (harness/wiredrv, built twice: default and -tags unsafe) runs
 protocol.WriteRequest/WriteResponse and ReadRequest/ReadResponse; TLC (WireCheck.tla) compares and names failing vectors.
+C04, driver B (the hand-written Conn codec): harness/connwire makes real kafka.Conn values (directly, through kafka.ConsumerGroup and
+through Dialer.SASLMechanism) talk to the fake brokers and captures the raw client->broker byte stream of every connection together with
+the version ranges the broker advertised; TLC (WireConnCheck.tla) splits every stream by size prefix and judges framing, request header
+(api key, version not above the advertised one, increasing correlation ids, client id) and body (SafeDecode with the schema of
+(api key, version) consumes exactly the frame; Encode of the decoded value gives back the bytes) of every frame.
 C20: TLC (WireFuzz.tla) enumerates (length field, value class) mutations of well-formed response frames; the driver
 runs protocol.ReadResponse on each in child processes; TLC judges every outcome line.
 
@@ -10,6 +15,8 @@ Violation keys (what known_findings.json `match` regexes see):
   C04: "C04 api=<Api> kind=<request|response> clause=<failed clauses joined by +> field=<first differing field> cause=<diagnosis>
         v=<versions, comma separated> builds=<default|unsafe|default+unsafe>"      (one per message and failure shape; field, cause and the
         version list are diagnostics derived from the first failing vector, so they may vary with the seed: match loosely)
+  C04: "C04 conn api=<Api> v=<n> clause=<failed clauses joined by +>"   (driver B, one per api, version and failure shape; a frame whose
+        announced size is not the number of bytes that follow is reported as clause=frame-size for the frame that announced it)
   C20: "C20 kind=<fieldKind> class=<valueClass> outcome=<panic|fatal|hang|alloc> api=<Api> v=<n> field=<path>[ records=<v0|v1|v2>][ build=unsafe]"
         (one per violating case)"""
 import concurrent.futures, glob, json, os, random, re, subprocess, shutil
@@ -21,7 +28,10 @@ ASSUMPTIONS = {
     "C04": ["the message definitions in spec/wire/schemas (provenance kafka) are transcribed from the Apache Kafka protocol by hand, without network access",
             "Go view of values: a Go string holds null and \"\" as one value (null at nullable fields), a nil slice is null; record sets are empty or null here (record encoding is C05)",
             "tagged fields: kafka-go declares none, so canonical frames carry none in the round-trip direction; decode-only vectors carry Kafka's tagged fields and unknown ones",
-            "driver B of the design (requests written by the legacy Conn codec) is not part of this engine"],
+            "driver B (requests written by the hand-written Conn codec) covers what is reachable from outside the package: Conn's exported methods, kafka.ConsumerGroup "
+            "(group APIs) and Dialer.SASLMechanism PLAIN (SASL APIs), against fake brokers advertising version ranges with lowest version 0; Conn.listGroups "
+            "(ListGroups v1) has no exported caller and the Conn codec has no DescribeGroups writer, so these two are not exercised; record sets inside Produce "
+            "requests are opaque blobs with a checked length prefix (their content is C05); the bare token after a SaslHandshake v0 is judged for framing only"],
     "C20": ["allocation is measured as the growth of runtime.MemStats.TotalAlloc around protocol.ReadResponse in a child process under GOMEMLIMIT and an address-space limit",
             "the bound is 64 x (bytes received) + 512 KiB (well-formed frames of these sizes stay below 160 KiB: 64 KiB buffer pages)"],
 }
@@ -243,6 +253,172 @@ def diff_value(fields, v, val, got, path=""):
     return None
 
 
+# ---------------------------------------------------------------------------------------------- C04 driver B (Conn codec)
+# (api key, version) pairs the scenarios are built to produce: every request type the Conn codec can write that is reachable from
+# outside the package, at every version it negotiates.  -2 stands for the bare SASL token that follows a SaslHandshake v0.
+CONN_EXPECT = [(0, 2), (0, 3), (0, 7), (1, 2), (1, 5), (1, 10), (2, 1), (3, 1), (3, 6), (8, 2), (9, 1), (10, 0), (11, 1), (11, 2), (12, 0),
+               (13, 0), (14, 0), (17, 0), (17, 1), (18, 0), (19, 0), (19, 1), (19, 2), (20, 0), (20, 1), (36, 0), (-2, 0)]
+CONN_UNREACHABLE = ["ListGroups v1 (Conn.listGroups has no exported caller: not reachable from outside the package)",
+                    "DescribeGroups (the Conn codec has no writer for it; Client.DescribeGroups uses the protocol package)"]
+# clauses that mean "these bytes are not a frame": the size announced by the PRECEDING frame is not the number of bytes that followed it
+CONN_DESYNC = {"header-truncated", "api-key-unknown", "version-unknown", "stray-bytes", "frame-exceeds-stream"}
+
+
+def conn_drive(ctx, d, tier, tag, only=None):
+    cp, lp = os.path.join(d, "conns-%s.ndjson" % tag), os.path.join(d, "connlog-%s.ndjson" % tag)
+    args = ["connwire", "-tier", tier, "-out", cp, "-log", lp, "-par", "8"] + (["-only", only] if only else [])
+    p = ctx.run_vh(args, timeout=900)
+    if p.returncode != 0:
+        raise Inconclusive("vh connwire failed: " + (p.stderr or p.stdout)[-1500:])
+    return read_ndjson(cp), read_ndjson(lp)
+
+
+def conn_judge_shard(ctx, d, req_path, k, part, tag):
+    cp = os.path.join(d, "connshard-%s-%d.ndjson" % (tag, k))
+    write_ndjson(cp, part)
+    jtmp = os.path.join(ctx.work, "jtmp")
+    c = ctx.tlc(ENGINE, "WireConnCheck", "WireConnCheck.cfg", workers=1, timeout=1500, tag="conn%s%d" % (tag, k),
+                env={"SCHEMAS": req_path, "CONNS": cp, "JAVA_TOOL_OPTIONS": JOPTS + " -Xss32m -Djava.io.tmpdir=" + jtmp})
+    m = re.search(r'<<"WIRECONNCHECK", (\d+), (\d+), (\d+), (\d+)>>', c["out"])
+    if c["timeout"] or not m or (c["error"] and not c["postcondition_failed"]):
+        raise Inconclusive("WireConnCheck failed (shard %d): %s" % (k, (c["error"] or c["out"])[-1500:]))
+    n, nframes, nbad = int(m.group(1)), int(m.group(2)), int(m.group(3))
+    flat = re.sub(r"\s+", " ", c["out"])
+    frames = {}
+    for mm in re.finditer(r'<< ?"CONNFRAMES", "([^"]*)", (\d+)((?:, <<-?\d+, -?\d+>>)*) ?>>', flat):
+        frames[(mm.group(1), int(mm.group(2)))] = [(int(a), int(b)) for a, b in re.findall(r"<<(-?\d+), (-?\d+)>>", mm.group(3))]
+    bad = []
+    for mm in re.finditer(r'<< ?"MISMATCH", "([^"]*)", (\d+), (\d+), (\d+), (-?\d+), (-?\d+), \{([^}]*)\} ?>>', flat):
+        bad.append({"scenario": mm.group(1), "conn": int(mm.group(2)), "idx": int(mm.group(3)), "off": int(mm.group(4)), "k": int(mm.group(5)),
+                    "v": int(mm.group(6)), "clauses": sorted(re.findall(r'"([^"]+)"', mm.group(7)))})
+    if n != len(part) or len(frames) != n or len(bad) != nbad or sum(len(f) for f in frames.values()) != nframes or c["postcondition_failed"] != (nbad > 0):
+        raise Inconclusive("WireConnCheck output inconsistent on shard %d (%d connections, %d CONNFRAMES lines, %d MISMATCH lines, counts %s)"
+                           % (k, len(part), len(frames), len(bad), m.group(0)))
+    return {"frames": frames, "bad": bad, "chk": c}
+
+
+def conn_judge(ctx, d, req_path, conns, nshards, tag):
+    # shards balanced by stream length
+    order = sorted(range(len(conns)), key=lambda i: -len(conns[i]["stream"]))
+    parts, load = [[] for _ in range(nshards)], [0] * nshards
+    for i in order:
+        j = load.index(min(load))
+        parts[j].append(conns[i])
+        load[j] += len(conns[i]["stream"]) + 200
+    parts = [p for p in parts if p]
+    with concurrent.futures.ThreadPoolExecutor(max_workers=len(parts) or 1) as ex:
+        futs = [ex.submit(conn_judge_shard, ctx, d, req_path, k, part, tag) for k, part in enumerate(parts)]
+        return [f.result() for f in futs]
+
+
+def conn_frames_of(stream):
+    """Diagnostic only: the stream split by size prefix (offset, announced size)."""
+    out, pos = [], 0
+    while pos + 4 <= len(stream):
+        n = int.from_bytes(bytes(stream[pos:pos + 4]), "big", signed=True)
+        out.append((pos, n))
+        if n < 0 or pos + 4 + n > len(stream):
+            break
+        pos += 4 + n
+    return out
+
+
+def run_conn_codec(ctx, d, msgs, tier):
+    """Driver B: returns (coverage dict, number of frames TLC accepted, TLC states, TLC transitions); reports violations."""
+    apiname = {m["apiKey"]: m["api"] for m in msgs if m["kind"] == "request"}
+    apiname[-2] = "RawSaslToken"
+    req_path = os.path.join(d, "reqschemas.ndjson")
+    write_ndjson(req_path, [m for m in msgs if m["kind"] == "request"])
+    attempts, conns, logs, results = 0, [], [], []
+    while True:
+        attempts += 1
+        conns, logs = conn_drive(ctx, d, tier, "a%d" % attempts)
+        results = conn_judge(ctx, d, req_path, conns, 3 if tier == "quick" else 8, "a%d" % attempts)
+        seen = {kv for r in results for f in r["frames"].values() for kv in f}
+        missing = [kv for kv in CONN_EXPECT if kv not in seen]
+        nbad = sum(len(r["bad"]) for r in results)
+        if not missing or nbad or attempts >= 2:
+            break
+        ctx.log("C04 conn codec: not exercised in this run: %s; running the scenarios once more" % missing)
+    frames = {}
+    for r in results:
+        frames.update(r["frames"])
+    bad = [b for r in results for b in r["bad"]]
+    nframes = sum(len(f) for f in frames.values())
+    ctx.log("C04 conn codec: %d scenarios, %d connections, %d frames judged by TLC, %d with a failed clause" % (len(logs), len(conns), nframes, len(bad)))
+    byconn = {(c["scenario"], c["conn"]): c for c in conns}
+    groups = {}
+    for b in bad:
+        c = byconn[(b["scenario"], b["conn"])]
+        fl = frames[(b["scenario"], b["conn"])]
+        k, v, clauses, culprit = b["k"], b["v"], b["clauses"], b["idx"]
+        if set(clauses) & CONN_DESYNC:
+            # the bytes at this place are not a frame: the frame before announced a size that is not the number of bytes that followed it
+            clauses = ["frame-size"]
+            if b["idx"] > 0:
+                culprit = b["idx"] - 1
+                k, v = fl[culprit]
+        api = apiname.get(k, "key%d" % k)
+        g = groups.setdefault((api, v, tuple(clauses)), {"n": 0, "first": None})
+        g["n"] += 1
+        if g["first"] is None:
+            g["first"] = (b, c, culprit)
+    nviol = 0
+    viol_keys = []
+    for (api, v, clauses) in sorted(groups):
+        g = groups[(api, v, clauses)]
+        b, c, culprit = g["first"]
+        key = "C04 conn api=%s v=%d clause=%s" % (api, v, "+".join(clauses))
+        viol_keys.append({"key": key, "frames": g["n"], "first": "%s conn %d frame %d" % (b["scenario"], b["conn"], culprit)})
+        if len(viol_keys) > MAXVIOL:
+            continue
+        split = conn_frames_of(c["stream"])
+        fr = [{"index": i, "offset": o, "announcedSize": n, "hex": hexs(c["stream"][o:o + 4 + max(n, 0)][:20000])} for i, (o, n) in enumerate(split)
+              if culprit - 1 <= i <= culprit + 1]
+        rep = ctx.save_replay("conn-%s-v%d-%s" % (api, v, "+".join(clauses)), [
+            ("conn.json", json.dumps(c)), ("frames.json", json.dumps(fr, indent=1)),
+            ("README.txt", "Scenario %s, connection %d (client->broker byte stream captured from a real kafka.Conn, harness/connwire).\n"
+             "WireConnCheck: frame %d at offset %d: clause(s) %s false.\nReported for frame %d (%s v%d): %s; %d frames of this kind.\n"
+             "Re-run: bin/check C04 --replay <this directory> (runs the scenario again on the current tree and judges it with TLC).\n"
+             % (b["scenario"], b["conn"], b["idx"], b["off"], ", ".join(b["clauses"]), culprit, api, v, "+".join(clauses), g["n"]))])
+        if clauses == ("frame-size",):
+            why = "the size it announces is not the number of bytes written: what follows it (frame %d, offset %d) fails %s" % (b["idx"], b["off"], "+".join(b["clauses"]))
+        else:
+            why = "clause(s) %s false" % ", ".join(clauses)
+        what = "%s | Conn codec, %s v%d request, scenario %s connection %d frame %d: %s (%d frames)" % (key, api, v, b["scenario"], b["conn"], culprit, why, g["n"])
+        if ctx.violation(what, rep, key=key):
+            nviol += 1
+    if not bad and missing:
+        raise Inconclusive("driver B did not make the Conn emit %s (scenario errors: %s)"
+                           % (["%s v%d" % (apiname.get(k, k), v) for k, v in missing], [e for l in logs for e in l["errs"]][:8]))
+    per = {}
+    for f in frames.values():
+        for (k, v) in f:
+            if k >= 0 or k == -2:
+                name = "%s v%d" % (apiname.get(k, "key%d" % k), v) if k >= 0 else "RawSaslToken (after SaslHandshake v0)"
+                per[name] = per.get(name, 0) + 1
+    werr = [("%s/%d" % (c["scenario"], c["conn"])) for c in conns if c["werr"]]
+    if werr:
+        ctx.notes.append("conn codec: the transport reported a failed Write on %s (an incomplete last frame is tolerated there)" % werr[:10])
+    # samples: first frames of three different connections
+    samples = []
+    for c in (conns[0], conns[len(conns) // 2], conns[-1]):
+        sp = conn_frames_of(c["stream"])
+        fl = frames[(c["scenario"], c["conn"])]
+        i = min(1, len(sp) - 1)
+        if i >= 0:
+            o, n = sp[i]
+            samples.append({"scenario": c["scenario"], "conn": c["conn"], "frame": i, "api": apiname.get(fl[i][0], fl[i][0]), "v": fl[i][1],
+                            "hex": hexs(c["stream"][o:o + 4 + n][:200]), "frames_on_connection": len(fl)})
+    cov = {"scenarios": len(logs), "connections": len(conns), "frames": nframes, "frames_with_failed_clause": len(bad),
+           "bytes": sum(len(c["stream"]) for c in conns), "frames_by_api_version": dict(sorted(per.items())),
+           "library_calls": sum(l["calls"] for l in logs), "library_calls_returning_an_error": sum(len(l["errs"]) for l in logs),
+           "advertised_maxima_per_scenario": "Produce 2..7, Fetch 2..10, Metadata 1..6, CreateTopics 0..2, DeleteTopics 0..1, JoinGroup 1..2, SaslHandshake 0..1 (lowest always 0)",
+           "not_exercised": CONN_UNREACHABLE + ["%s v%d" % (apiname.get(k, k), v) for k, v in missing], "driver_runs": attempts,
+           "violation_groups": viol_keys, "samples": samples}
+    return cov, nframes - len(bad), sum(r["chk"]["distinct"] for r in results), sum(r["chk"]["generated"] for r in results)
+
+
 def run_c04(ctx):
     tier, seed = ctx.tier, ctx.seed
     d = ctx.specdir(ENGINE)
@@ -272,10 +448,14 @@ def run_c04(ctx):
                 jobs.append((len(jobs), part, salt))
     ctx.log("C04: %d (message, version) targets, %d shards, rows rt=%d dec=%d nil=%d" % (len(tg), len(jobs), nrt, ndec, nnil))
     results = []
-    with concurrent.futures.ThreadPoolExecutor(max_workers=8) as ex:
+    with concurrent.futures.ThreadPoolExecutor(max_workers=1) as exb, concurrent.futures.ThreadPoolExecutor(max_workers=8) as ex:
+        # driver B (Conn codec) runs beside the shards of driver A; its violations are printed when it is done
+        futb = exb.submit(run_conn_codec, ctx, d, msgs, tier)
         futs = [ex.submit(run_shard, ctx, d, k, schemas_path, part, salt, vh, vhu) for (k, part, salt) in jobs]
         for f in futs:
             results.append(f.result())
+        conn_cov, conn_ok, conn_states, conn_trans = futb.result()
+    states_b, trans_b = conn_states, conn_trans
     total = sum(r["n"] for r in results)
     states = sum(r["chk"]["distinct"] + r["gen"]["distinct"] for r in results)
     trans = sum(r["chk"]["generated"] + r["gen"]["generated"] for r in results)
@@ -364,8 +544,8 @@ def run_c04(ctx):
     samples = []
     for s in (sample_src[0], sample_src[len(sample_src) // 2], sample_src[-1]):
         samples.append({"id": s["id"], "value": s["value"], "frameHex": hexs(s["frame"]), "bodyHex": hexs(s["frame"][s["hdr"]:]), "mode": s["mode"]})
-    return {"engine": "wire", "states": states, "transitions": trans, "traces_validated_against_impl": 2 * (total - nbad),
-            "vectors": total, "vectors_with_failed_clause": nbad,
+    return {"engine": "wire", "states": states + states_b, "transitions": trans + trans_b, "traces_validated_against_impl": 2 * (total - nbad) + conn_ok,
+            "conn_codec": conn_cov, "vectors": total, "vectors_with_failed_clause": nbad,
             # SafeDecode(Encode(value)) = value, evaluated by TLC on every generated vector (consistency of the specification itself)
             "spec_roundtrip_checked": sum(r["spec_rt"] for r in results), "builds": ["default", "unsafe"],
             "targets": len(tg), "rows_round_trip": nrt, "rows_decode_only": ndec, "rows_nil_as_empty": nnil, "salts": salts,
@@ -530,11 +710,29 @@ def run_c20(ctx):
 
 def replay(ctx, path):
     """bin/check <id> --replay <dir>: re-runs the saved vector (C04) or case (C20) on the current tree; TLC judges again."""
+    ctx.vh_keep = ["wire.go", "connwire.go"]
     d = ctx.specdir(ENGINE)
     msgs = normalise(os.path.join(d, "schemas"))
     schemas_path = os.path.join(d, "schemas.ndjson")
     write_ndjson(schemas_path, msgs)
     vh = ctx.vh()
+    if os.path.exists(os.path.join(path, "conn.json")):
+        # driver B: the scenario of the saved connection is run again on the current tree, all its connections are judged
+        saved = json.load(open(os.path.join(path, "conn.json")))
+        req_path = os.path.join(d, "reqschemas.ndjson")
+        write_ndjson(req_path, [m for m in msgs if m["kind"] == "request"])
+        conns = [c for c in conn_drive(ctx, d, ctx.tier, "replay", only=saved["scenario"])[0] if c["scenario"] == saved["scenario"]]
+        if not conns:
+            raise Inconclusive("scenario %s produced no connection" % saved["scenario"])
+        res = conn_judge(ctx, d, req_path, conns, 1, "replay")
+        bad = [b for r in res for b in r["bad"]]
+        if bad:
+            print("VIOLATION property=%s replay=%s" % (ctx.prop, path))
+            print("  detail: %s" % bad[0])
+            return 1
+        print("replay: scenario %s: %d connections, %d frames accepted by WireConnCheck on the current tree"
+              % (saved["scenario"], len(conns), sum(len(f) for r in res for f in r["frames"].values())))
+        return 0
     if os.path.exists(os.path.join(path, "vector.json")):
         vec = json.load(open(os.path.join(path, "vector.json")))
         vp, r1, r2 = (os.path.join(d, n) for n in ("vectors-0.ndjson", "results-default-0.ndjson", "results-unsafe-0.ndjson"))
@@ -579,6 +777,7 @@ def replay(ctx, path):
 
 
 def run(ctx):
+    ctx.vh_keep = ["wire.go", "connwire.go"]
     if ctx.prop == "C04":
         return run_c04(ctx)
     return run_c20(ctx)
